@@ -236,6 +236,63 @@ fn decode_once(decoder: &str, bytes: &[u8]) -> Result<(String, Option<MVal>), Vi
     }
 }
 
+/// The number decoder is a public entry point of its own (`jsonb::Number::decode`, anchored by C10): it is handed the
+/// whole row and every short suffix of it (where the tag/width match decides), on the copy that ends at the
+/// inaccessible page. Judged: no panic (O1); a number it returns survives its own encode/decode (O7). A prefix of a
+/// document is not a number encoding, so O3 does not apply here.
+fn number_direct(bytes: &[u8]) -> Result<u32, Viol> {
+    fn judge(slice: &[u8]) -> Result<bool, String> {
+        let num = match jsonb::Number::decode(slice) {
+            Ok(n) => n,
+            Err(_) => return Ok(false),
+        };
+        let mut again = Vec::with_capacity(9);
+        let wrote = num.compact_encode(&mut again);
+        let back = jsonb::Number::decode(&again);
+        let same = match (&back, &num) {
+            (Ok(jsonb::Number::Float64(a)), jsonb::Number::Float64(b)) => a.to_bits() == b.to_bits() || (a.is_nan() && b.is_nan()),
+            (Ok(jsonb::Number::Int64(a)), jsonb::Number::Int64(b)) => a == b,
+            (Ok(jsonb::Number::UInt64(a)), jsonb::Number::UInt64(b)) => a == b,
+            // zero has one encoding for both integer kinds
+            (Ok(jsonb::Number::UInt64(0)), jsonb::Number::Int64(0)) => true,
+            _ => false,
+        };
+        if !same || wrote.as_ref().ok() != Some(&again.len()) {
+            return Err(format!("Number::decode({:02x?}) = {:?}, which re-encodes to {:02x?} (reported {:?}) and decodes back to {:?}", slice, num, again, wrote.ok(), back.ok()));
+        }
+        Ok(true)
+    }
+    let (r, _) = crate::placement::with_row(bytes, |row| {
+        guard(|| {
+            let mut oks = 0u32;
+            let n = row.len();
+            for start in std::iter::once(0).chain(n.saturating_sub(12)..=n) {
+                oks += judge(&row[start..])? as u32;
+            }
+            // every number tag (and the row's last byte as a tag) at every width 0..=9 and 16, 17, payload taken from
+            // the row: the (tag, width) table of the decoder, enumerated on every row
+            let mut synth = [0u8; 18];
+            if n > 0 {
+                for (i, b) in synth.iter_mut().enumerate().skip(1) {
+                    *b = row[(n - 1).wrapping_sub(i) % n];
+                }
+            }
+            for tag in [0x00u8, 0x10, 0x20, 0x30, 0x40, 0x50, 0x60, row.last().copied().unwrap_or(0x70)] {
+                synth[0] = tag;
+                for len in [0usize, 1, 2, 3, 4, 5, 6, 7, 8, 9, 10, 17, 18] {
+                    oks += judge(&synth[..len])? as u32;
+                }
+            }
+            Ok(oks)
+        })
+    });
+    match r {
+        Err(p) => Err(Viol { class: format!("O1:panic:Number::decode:{}", p.loc), detail: format!("panic at {}: {}", p.loc, p.msg) }),
+        Ok(Err(why)) => Err(Viol { class: "O7:number_unstable:Number::decode".to_string(), detail: why }),
+        Ok(Ok(oks)) => Ok(oks),
+    }
+}
+
 #[derive(Clone, Copy, PartialEq)]
 enum Clause {
     Any,
@@ -291,6 +348,18 @@ impl<'a> Ctx<'a> {
                     self.digest.str(&v.class);
                     self.push(v, sub());
                 }
+            }
+        }
+        self.stats.steps += 1;
+        match number_direct(bytes) {
+            Ok(oks) => {
+                self.digest.u64(oks as u64);
+                self.stats.inc("probe/number_direct_rows");
+                self.stats.add("number_direct/decodes_returning_ok", oks as u64);
+            }
+            Err(v) => {
+                self.digest.str(&v.class);
+                self.push(v, sub());
             }
         }
     }
@@ -1092,7 +1161,7 @@ impl Scenario for Corrupt {
         m.insert("decodes".into(), json!(stats.steps));
         m.insert(
             "components".into(),
-            json!({"real": ["jsonb::from_slice", "jsonb::parse_jsonb", "jsonb text parser (fallback)"],
+            json!({"real": ["jsonb::from_slice", "jsonb::parse_jsonb", "jsonb::Number::decode (called directly on the row, its short suffixes and a (tag, width) table)", "jsonb text parser (fallback)"],
                    "simulated": ["block store holding encodings", "fault injector", "memory-limited node (accounting allocator)", "where the row sits in memory (every alignment; an inaccessible page right behind its last byte)", "caller"],
                    "stub": []}),
         );
@@ -1111,6 +1180,7 @@ impl Scenario for Corrupt {
             "probe/err:InvalidUtf8",
             "probe/err:Syntax",
             "probe/decode_on_row_ending_at_inaccessible_page",
+            "probe/number_direct_rows",
         ]
     }
 }
